@@ -14,7 +14,7 @@ import vlib
 
 LEVEL = "model_checking"
 _lock = threading.Lock()
-NCLASSES = 20
+NCLASSES = 24
 OBLIGATIONS = ("UpOK", "DownOK", "FloorOK", "StayOK", "RangeOK")
 MODEL_VARS = ("last", "used", "maxGas", "ratio", "comp", "init", "out", "lo", "hi")
 
